@@ -15,6 +15,10 @@ func (a *LimitPlanner) Process(ctx *shared.PlannerContext,
 			return nil
 		},
 		OnAfterEntriesSlice: func(entries []shared.LogEntry, c chan []shared.LogEntry) error {
+			if limit == 0 {
+				c <- entries
+				return nil
+			}
 			if sent >= limit {
 				return nil
 			}
